@@ -290,6 +290,13 @@ theorem doGsub_ids {w : World} (h : IdsOK w) (e c : Nat) (add : Bool) : IdsOK (d
   repeat' split
   all_goals exact h.tok _ rfl rfl rfl rfl
 
+theorem doGsubH_ids {w : World} (h : IdsOK w) (e c t : Nat) : IdsOK (doGsubH w e c t) := by
+  unfold doGsubH
+  repeat' split
+  all_goals first
+    | exact h.tok _ rfl rfl rfl rfl
+    | exact h.of_eq rfl rfl rfl
+
 theorem execOp_ids {w : World} (h : IdsOK w) (op : SOp) : IdsOK (execOp w op) := by
   cases op <;> simp only [execOp]
   · exact doSub_ids h ..
@@ -300,6 +307,7 @@ theorem execOp_ids {w : World} (h : IdsOK w) (op : SOp) : IdsOK (execOp w op) :=
   · exact doClear_ids h ..
   · exact doGsub_ids h ..
   · exact doGsub_ids h ..
+  · exact doGsubH_ids h ..
 
 
 theorem closeDisp_ids {w : World} (h : IdsOK w) (g : List GTok) (rest : List Frame) (p c e : Nat) (snap : List Nat) (lt : Bool) :
@@ -432,6 +440,13 @@ theorem doGsub_fix {w : World} (h : FixOK w) (e c : Nat) (add : Bool) : FixOK (d
   repeat' split
   all_goals exact h.of_eq rfl rfl rfl
 
+theorem doGsubH_fix {w : World} (h : FixOK w) (e c t : Nat) : FixOK (doGsubH w e c t) := by
+  unfold doGsubH
+  repeat' split
+  all_goals first
+    | exact h.of_eq rfl rfl rfl
+    | exact h.of_eq rfl rfl rfl
+
 theorem execOp_fix {w : World} (h : FixOK w) (op : SOp) : FixOK (execOp w op) := by
   cases op <;> simp only [execOp]
   · exact doSub_fix h ..
@@ -442,6 +457,7 @@ theorem execOp_fix {w : World} (h : FixOK w) (op : SOp) : FixOK (execOp w op) :=
   · exact doClear_fix h ..
   · exact doGsub_fix h ..
   · exact doGsub_fix h ..
+  · exact doGsubH_fix h ..
 
 theorem closeDisp_fix {w : World} (h : FixOK w) (g : List GTok) (rest : List Frame) (p c e : Nat) (snap : List Nat) (lt : Bool) :
     FixOK (closeDisp w g rest p c e snap lt) := by
@@ -726,6 +742,13 @@ theorem doGsub_reg {w : World} (h : RegOK w) (e c : Nat) (add : Bool) : RegOK (d
         exact ⟨fun hh => hh.resolve_left hne, Or.inr⟩
   · exact h.of_eq rfl rfl rfl
 
+theorem doGsubH_reg {w : World} (h : RegOK w) (e c t : Nat) : RegOK (doGsubH w e c t) := by
+  unfold doGsubH
+  repeat' split
+  all_goals first
+    | exact h.of_eq rfl rfl rfl
+    | exact h.of_eq rfl rfl rfl
+
 theorem execOp_reg {w : World} (h : RegOK w) (op : SOp) : RegOK (execOp w op) := by
   cases op <;> simp only [execOp]
   · exact doSub_reg h ..
@@ -736,6 +759,7 @@ theorem execOp_reg {w : World} (h : RegOK w) (op : SOp) : RegOK (execOp w op) :=
   · exact doClear_reg h ..
   · exact doGsub_reg h ..
   · exact doGsub_reg h ..
+  · exact doGsubH_reg h ..
 
 theorem stepDisp_reg {w : World} (h : RegOK w) (rest : List Frame) (p c e : Nat) (a snap called : List Nat) :
     RegOK (stepDisp w rest p c e a snap called) := by
@@ -1024,6 +1048,13 @@ theorem doGsub_fr {w : World} (h : FrOK w) (e c : Nat) (add : Bool) : FrOK (doGs
     | exact h.tok _ rfl rfl rfl rfl
     | (cases add <;> exact h.tok _ rfl rfl rfl rfl)
 
+theorem doGsubH_fr {w : World} (h : FrOK w) (e c t : Nat) : FrOK (doGsubH w e c t) := by
+  unfold doGsubH
+  repeat' split
+  all_goals first
+    | exact h.tok _ rfl rfl rfl rfl
+    | (refine h.of_eq ?_ rfl rfl; simp [disps, List.filter_cons, isDisp])
+
 theorem execOp_fr {w : World} (h : FrOK w) (op : SOp) : FrOK (execOp w op) := by
   cases op <;> simp only [execOp]
   · exact doSub_fr h ..
@@ -1034,6 +1065,7 @@ theorem execOp_fr {w : World} (h : FrOK w) (op : SOp) : FrOK (execOp w op) := by
   · exact doClear_fr h ..
   · exact doGsub_fr h ..
   · exact doGsub_fr h ..
+  · exact doGsubH_fr h ..
 
 theorem stepDisp_fr {w : World} (h : FrOK w) (hc : w.cfg = Cfg.fixed) (rest : List Frame) (p c e : Nat)
     (a snap called : List Nat) (hst : w.stack = .disp p c e a snap called :: rest) :
@@ -1255,6 +1287,13 @@ theorem doGsub_sub {w : World} (h : SubOK w) (e c : Nat) (add : Bool) : SubOK (d
     | exact h.tok _ rfl rfl (fun _ hl => hl) (fun _ hx => hx) rfl
     | (cases add <;> exact h.tok _ rfl rfl (fun _ hl => hl) (fun _ hx => hx) rfl)
 
+theorem doGsubH_sub {w : World} (h : SubOK w) (e c t : Nat) : SubOK (doGsubH w e c t) := by
+  unfold doGsubH
+  repeat' split
+  all_goals first
+    | exact h.tok _ rfl rfl (fun _ hl => hl) (fun _ hx => hx) rfl
+    | exact h.of_eq (fun _ hl => hl) (fun _ hx => hx) rfl
+
 theorem execOp_sub {w : World} (h : SubOK w) (op : SOp) : SubOK (execOp w op) := by
   cases op <;> simp only [execOp]
   · exact doSub_sub h ..
@@ -1265,6 +1304,7 @@ theorem execOp_sub {w : World} (h : SubOK w) (op : SOp) : SubOK (execOp w op) :=
   · exact doClear_sub h ..
   · exact doGsub_sub h ..
   · exact doGsub_sub h ..
+  · exact doGsubH_sub h ..
 
 theorem stepDisp_sub {w : World} (h : SubOK w) (hfr : FrOK w) (hc : w.cfg = Cfg.fixed) (rest : List Frame) (p c e : Nat)
     (a snap called : List Nat) (hst : w.stack = .disp p c e a snap called :: rest) :
@@ -1561,6 +1601,13 @@ theorem doGsub_q {w : World} (h : QOK w) (e c : Nat) (add : Bool) : QOK (doGsub 
   repeat' split
   all_goals exact h.tok _ (same_queues w) rfl
 
+theorem doGsubH_q {w : World} (h : QOK w) (e c t : Nat) : QOK (doGsubH w e c t) := by
+  unfold doGsubH
+  repeat' split
+  all_goals first
+    | exact h.tok _ (same_queues w) rfl
+    | exact h.of_eq rfl rfl
+
 theorem execOp_q {w : World} (h : QOK w) (op : SOp) : QOK (execOp w op) := by
   cases op <;> simp only [execOp]
   · exact doSub_q h ..
@@ -1571,6 +1618,7 @@ theorem execOp_q {w : World} (h : QOK w) (op : SOp) : QOK (execOp w op) := by
   · exact doClear_q h ..
   · exact doGsub_q h ..
   · exact doGsub_q h ..
+  · exact doGsubH_q h ..
 
 theorem stepDisp_q {w : World} (h : QOK w) (rest : List Frame) (p c e : Nat) (a snap called : List Nat) :
     QOK (stepDisp w rest p c e a snap called) := by
